@@ -182,7 +182,8 @@ theorem bd_step (s s' : LS) (e : Ev) (h : Bd s) (hs : s.step e = some s') : Bd s
       · rename_i ot _
         split at hs
         · cases hs; exact bd_of_req s _ h rfl rfl h.fls (by bd_req)
-        · rename_i t hhd
+        · rename_i t hhd0
+          have hhd := (lookupTarget_some hhd0).1
           have ht : t < s.n := h.ch ot t (List.mem_of_mem_head? hhd)
           cases hs
           have q1 := fq_upd s.n _ h.fq f { s.req f with flushreq := (s.req t).flushreq } (by exact h.fq t)
